@@ -38,7 +38,9 @@ GTS = [0, .1, .25, .3, .7, 1.0, 2.0]
 CAUSES = ['stop', 'restart', 'decr', 'reload', 'reloadseq', 'reloadterm', 'kill', 'kill_pid', 'kill_over',
           'max_age', 'rm', 'quit',
           # a second termination arriving inside the grace period of a non-exclusive kill request
-          'kill_then_decr', 'kill_then_set0', 'kill_then_kill', 'kill_then_incr']
+          'kill_then_decr', 'kill_then_set0', 'kill_then_kill', 'kill_then_incr',
+          # a history of terminations: several restarts in a row (every generation is judged)
+          'restart_x5']
 KIDS = [[], [], [{'beh': {}}], [{'beh': {'*': ['ignore']}}], [{'beh': {}}, {'beh': {'*': ['ignore']}}],
         [{'beh': {'*': ['ignore']}, 'kids': [{'beh': {'*': ['ignore']}}]}],
         [{'beh': {}}, {'beh': {'*': ['ignore']}}, {'beh': {'*': ['ignore']}}]]
@@ -85,8 +87,16 @@ def materialise(spec, v):
         # keep the reaction meaningful relative to the overriding timeout
         if react[0] in ('die', 'exit'):
             beh = {str(osig): [react[0], min(react[1], ogt + .35)] + list(react[2:])}
+    behs = [beh]
+    if cause == 'restart_x5':
+        # the first generations sit out the grace period (or do whatever the cell says), the later ones would
+        # leave in time: what happened to their predecessors must not matter
+        stub = {str(sig): ['ignore']}
+        quick = {str(sig): ['die', min(0.05, gt / 2.0)]}
+        behs = rnd.choice([[stub] * (3 * np_) + [quick] * (4 * np_), [beh] * (2 * np_) + [stub] * np_ + [quick] * (4 * np_),
+                           [beh]])
     w = {'name': 'a', 'numprocesses': np_, 'graceful_timeout': gt, 'stop_signal': sig,
-         'stop_children': stop_children, 'beh': [beh], 'kids': kids,
+         'stop_children': stop_children, 'beh': behs, 'kids': kids,
          'warmup_delay': rnd.choice([0, 0, .2])}
     if cause == 'max_age':
         w['max_age'] = 1
@@ -202,6 +212,12 @@ def _history(w, h, res):
         w.req('stop', name='a', waiting=True)
     elif cause == 'restart':
         w.req('restart', name='a', waiting=True)
+    elif cause == 'restart_x5':
+        for _ in range(5):
+            yield w.call('restart', name='a', waiting=True)
+            yield w.settle(60)
+            if w.stalled is not None:
+                break
     elif cause == 'decr':
         w.req('decr', name='a', nb=1, waiting=True)
     elif cause == 'reload':
